@@ -180,3 +180,70 @@ def k3_loop_depth(res, tier):
         summarize_paths(res, e, results, lambda r: r.info if isinstance(r.info, dict) else None, key_prefix=f'C15.K3:{fname}:', unwind_ok=True)
         if not any(isinstance(r.info, dict) and r.info.get('bodies') for r in results if r.kind == 'ok'):
             res.inconclusive(f'vacuous: Parser::{fname} never reached fun_body')
+
+
+# ---------------------------------------------------------------------------------------------- K1 the optimiser's run counters
+F54_SRC = 'fn f() { let z = 7; if true {\n' + ''.join(f'let a{i} = {i};\n' for i in range(256)) + 'a0; } return z; }\nprint(f());\n'
+F54_REPLAY = dict(kind='lay', source=F54_SRC, bad_re='panicked', bad_exit=[101, 134, -6])
+
+
+@obligation('C15.K1.drop_run_counter', 'C15', programs=('vm',), also=('C12',))
+def k1_drop_counter(res, tier):
+    """peephole::drop, one iteration of its run loop from ANY counter value: merging one more Drop into the run never overflows the
+    counter (the optimiser also runs on the instructions of a function that already has diagnostics, e.g. one with too many locals,
+    whose scope exits emit more consecutive drops than a valid function can)"""
+    from mirsym.engine import Engine
+    from mirsym.mir import parsed_block
+    P = get_program('vm')
+    f = P.lookup('compiler::peephole::drop')
+    if f is None:
+        res.inconclusive('peephole::drop not located')
+        return
+    res.bounds = {'drops merged so far': 'any u8', 'next instruction': 'a Drop'}
+    heads = [bb for bb in f.blocks if (lambda t: t[0] == 'call' and 'peek_next' in t[2])(parsed_block(f, bb)[1])]
+    if len(heads) != 1:
+        res.inconclusive('peephole::drop: loop head not found')
+        return
+    head = heads[0]
+    cnt = f.debug.get('drop_count')
+    # the loop condition may start with a test of the counter itself (a limit): then the iteration starts at that test
+    for bb in f.blocks:
+        stmts, term, _ = parsed_block(f, bb)
+        txt = repr(stmts) + repr(term)
+        if cnt and ("'" + cnt + "'") in txt and ('Lt' in txt or 'Ne' in txt or 'Le' in txt) and term[0] == 'switch' and bb != head:
+            preds_to_head = head in repr(term) or True
+            head = bb
+            break
+    e = Engine(P, loop_bound=3, timeout_s=60)
+    INS = 'byte_code::SymbolicByteCode'
+    ed = P.enum_def(INS)
+    opt = P.enum_def('Option')
+    e.model(r'^(compiler::)?(peephole::)?VecCursor::peek_next$', lambda e_, a, c: EnumV(norm_ty(c.dest_ty), 1, {'Some': {0: Cell(EnumV(INS, ed.vindex['Drop'], None, None, ed))}}, None, opt))
+    e.allow_havoc(r'^(compiler::)?(peephole::)?VecCursor::(inc_reader|write|copy_cursors|read|peek)$')
+
+    def path(e):
+        k = z3.BitVec('drops_so_far', 8)
+        e.add_constraint(z3.UGE(k, 1))
+
+        def stop(eng, fr):
+            if fr.visits[head] >= 2:
+                raise PathEnd('stop', fr)
+        e.bb_hooks[(f.key, head)] = stop
+        ins = Ref(Cell(Opaque('VecCursor<SymbolicByteCode>', 'instructions')))
+        lines = Ref(Cell(Opaque('VecCursor<u16>', 'lines')))
+        preset = {cnt: k, f.args[0][0]: ins, f.args[1][0]: lines}
+        try:
+            e.exec_fn(f, [ins, lines], 0, None, start_bb=head, preset=preset)
+        except PathEnd as pe:
+            if pe.kind != 'stop':
+                raise
+        e.check(True, 'one more Drop merged into the run')
+        return {'merged': 'one more'}
+    results = e.explore(path)
+    for r in results:
+        if r.kind == 'panic' and 'overflow' in str(r.info):
+            res.fail('C15.K1:the drop run counter overflows', 'peephole::drop counts a run of Drop instructions in a u8 without a limit: 256 consecutive drops (a function with too many '
+                     'locals, already diagnosed) end the compiler in a host panic instead of the diagnostics', {'path': str(r.info)}, replay=F54_REPLAY)
+        elif r.kind in ('oob', 'unreachable', 'ub', 'diverge', 'depth', 'panic'):
+            res.fail(f'C15.K1:drop:{r.kind}', f'peephole::drop: path ends in {r.kind}: {str(r.info)[:200]}', {'path': str(r.info)})
+    summarize_paths(res, e, results, lambda r: r.info if isinstance(r.info, dict) else None, key_prefix='C15.K1:drop:', unwind_ok=True, ok_kinds=('ok', 'panic', 'stop'))
